@@ -294,6 +294,7 @@ func (c *RetryClient) SetClient(ctx context.Context, cli *BaseClient) {
 	c.chTask = make(chan struct{}, 1)
 	go func() {
 		connected := false
+		var chConnSwitchConnected chan struct{}
 		ctx := context.Background()
 
 	L_TASK:
@@ -309,6 +310,7 @@ func (c *RetryClient) SetClient(ctx context.Context, cli *BaseClient) {
 					case _, ok := <-chConnectErr:
 						if !ok {
 							connected = true
+							chConnSwitchConnected = chConnSwitch
 							verifEvent("tgConnected")
 							continue L_TASK
 						}
@@ -318,7 +320,7 @@ func (c *RetryClient) SetClient(ctx context.Context, cli *BaseClient) {
 			}
 
 			c.mu.Lock()
-			chConnSwitch := c.chConnSwitch
+			chConnSwitch := chConnSwitchConnected
 			select {
 			case <-chConnSwitch:
 				c.mu.Unlock()
